@@ -16,6 +16,7 @@ import (
 	"github.com/thushan/olla/internal/core/domain"
 	"github.com/thushan/olla/internal/core/ports"
 	"github.com/thushan/olla/internal/logger"
+	"github.com/thushan/olla/internal/verifhook"
 )
 
 // ErrCircuitOpen marks an endpoint that was skipped because its circuit breaker is open.
@@ -188,6 +189,10 @@ func (h *RetryHandler) executeProxyAttempt(ctx context.Context, w http.ResponseW
 
 	selector.IncrementConnections(endpoint)
 	defer selector.DecrementConnections(endpoint)
+
+	if verifhook.Enabled {
+		verifhook.Fault("proxy.attempt")
+	}
 
 	return proxyFunc(ctx, w, r, endpoint, stats)
 }
